@@ -81,6 +81,14 @@ long atol(const char *p)
     return 0;
 }
 
+/* the same recording model stands for every decimal conversion routine the filters might use */
+long strtol(const char *p, char **e, int b) { (void)b; if (e) *e = (char *)p + strlen(p); return atol(p); }
+long long strtoll(const char *p, char **e, int b) { return strtol(p, e, b); }
+unsigned long strtoul(const char *p, char **e, int b) { return (unsigned long)strtol(p, e, b); }
+unsigned long long strtoull(const char *p, char **e, int b) { return (unsigned long long)strtol(p, e, b); }
+int atoi(const char *p) { return (int)atol(p); }
+long long atoll(const char *p) { return atol(p); }
+
 void harness(void)
 {
     V_HAVOC_IN();
